@@ -318,7 +318,7 @@ def p4_key(name, args, detail):
     m = re.search(r'\|diff\| = ([0-9.eE+-]+)', detail)
     if k == 4 and m and float(m.group(1)) <= P4_ABS:
         return 'C11:profile4-rounded-constants'
-    return 'C11:%s:%s:%s' % (name, k, detail.split('=')[0][:30])
+    return 'C11:%s:%s:%s' % (name, k, re.sub(r'\[.*?\]|\(.*?\)', '', detail.split('=')[0])[:30].strip())
 
 
 def search(ctx, rng, budget):
